@@ -224,9 +224,15 @@ def walk_matches(ast, out_s, out_r, out_c):
                 sm(e["rhs"])
             elif e["rhs"]["k"] == "obj":
                 out_c.add(e["rhs"]["cls"])
+                if e["rhs"]["rule"]:
+                    out_c.add(e["rhs"]["rule"])
+            elif e["rhs"]["k"] == "rule":
+                out_c.add(e["rhs"]["name"])       # rule references may be fully qualified names too
             mods(e["mods"])
         elif e["k"] in ("str", "re"):
             sm(e)
+        elif e["k"] == "ref":
+            out_c.add(e["name"])
         elif e["k"] == "grp":
             ch(e["c"])
 
